@@ -3,6 +3,7 @@ import ast, glob, itertools, json, os, random, time
 import vlib
 import c03_lib as L
 import c03_struct as S
+import c03_model as M
 from vlib import Corr, Search, Failure
 
 ID = 'C03'
@@ -427,16 +428,109 @@ def correspondence(ctx):
     bad = run_bools(ctx, exprs, name='corr')
     for i in bad[:20]:
         disagreements.append({'what': 'model and implementation differ (%s)' % meta[i][0], 'input': meta[i][1], 'coq_case': exprs[i][:1500]})
+    n_ref = len(exprs)
+
+    # (2) the model of Model/C03Decomp.v against CPython's compiler and Pony's Decompiler, at every tie point of DESIGN Appendix B
+    t1 = time.time()
+    texprs, tmeta = [], []
+    dist.update({'model_cases': 0, 'model_outside_instruction_set': 0, 'model_in_compile_domain': 0,
+                 'real_outcomes': {'tree': 0, 'exception': 0}})
+    for fam, e, kinds in model_cases(ctx):
+        in_dom_e = not (L.constructors(e) & {'Const'})
+        for kind in kinds:
+            try:
+                o = M.observe(e, kind)
+            except M.Unmodelled as u:
+                dist['model_outside_instruction_set'] += 1
+                if in_dom_e:      # with constants CPython folds jumps (plain JUMP_BACKWARD, RETURN_CONST, ...): expected, counted
+                    disagreements.append({'what': 'real instruction stream or tree outside the modelled set: %s' % u, 'input': L.source_text(e, kind)})
+                continue
+            in_dom = in_dom_e and not (kind == 'lambda' and 'If' in L.constructors(e))
+            texprs.append('%s (tie_all %s %d %s %s [%s] %d %s)' % (
+                'andb (compile_domain %s %s)' % (M.POSITION[kind], L.coq(e)) if in_dom else 'andb (negb (compile_domain %s %s))' % (M.POSITION[kind], L.coq(e)),
+                M.POSITION[kind], L.natoms(e), L.coq(e), M.coq_code(o['code']), ';'.join(map(str, o['orj'])), o['ce'], o['result']))
+            tmeta.append((kind, e, o))
+            dist['model_cases'] += 1
+            dist['model_in_compile_domain'] += 1 if in_dom else 0
+            dist['real_outcomes']['exception' if o['exc'] else 'tree'] += 1
+            if not o['exc'] and e[0] not in ('A', 'C'): nontrivial.add((kind, L.key_tuple(e)))
+    tbad = run_bools(ctx, texprs, header=M.COQ_HEADER, name='tie', chunk=1000)
+    if tbad:
+        # say which tie point differs (only the first few)
+        for i in tbad[:8]:
+            kind, e, o = tmeta[i]
+            q = 'tie_parts %s %d %s %s [%s] %d %s' % (M.POSITION[kind], L.natoms(e), L.coq(e), M.coq_code(o['code']), ';'.join(map(str, o['orj'])), o['ce'], o['result'])
+            out = vlib.parse_eval_outputs(vlib.coq_eval(ctx, M.COQ_HEADER + 'Eval vm_compute in (%s).\n' % q, name='tiedbg%d' % i))
+            parts = out[0] if out else '?'
+            names = ['compile vs dis', 'or_jumps/conditions_end', 'decompile vs Decompiler.ast', 'exec vs eval']
+            flags = [x.strip() for x in parts.strip('[]').split(';')]
+            which = [nm for nm, fl in zip(names, flags) if fl != 'true'] or ['compile_domain']
+            disagreements.append({'what': 'model and implementation differ at: %s' % ', '.join(which), 'input': L.source_text(e, kind),
+                                  'impl': {'instructions': M.coq_code(o['code']), 'or_jumps': o['orj'], 'conditions_end': o['ce'], 'result': o['result']}})
+    dist['seconds_model_ties'] = round(time.time() - t1, 1)
     dist['seconds'] = round(time.time() - t0, 1)
-    return Corr(cases=len(exprs), nontrivial=len(nontrivial), disagreements=disagreements,
-                samples=[{'coq_case': exprs[0][:400]}] if exprs else [], distribution=dist,
-                note='every case is a boolean computed by vm_compute inside Coq from the model and the serialised implementation output')
+    samples = [{'coq_case': exprs[0][:400]}] if exprs else []
+    if texprs: samples.append({'coq_case': texprs[len(texprs) // 2][:900]})
+    return Corr(cases=n_ref + len(texprs), nontrivial=len(nontrivial), disagreements=disagreements, samples=samples, distribution=dist,
+                note='every case is a boolean computed by vm_compute inside Coq from the model and the serialised implementation output; '
+                     'a model case = compile vs dis stream, or_jumps/conditions_end, decompile_code vs Decompiler.ast, exec vs eval, for one expression at one position')
 
 
-TRUSTED = []
-ASSUMPTIONS = []
-RULE = ''
-LEVEL_TEXT = ''
-LEVEL_NOTE = ''
-TECHNIQUE = ''
+def model_cases(ctx):
+    """(family, expression, positions) for the model ties"""
+    out = []
+    big = ctx.thorough
+    allpos = list(M.POSITION)
+    for fam, e in boolean_families(ctx, big):
+        n = L.leaves(e)
+        if fam == 'full-not' and n <= (4 if big else 3): out.append((fam, e, allpos))
+        elif fam == 'full' and n <= (5 if big else 4): out.append((fam, e, allpos))
+        elif fam == 'andornot' and n <= (5 if big else 4):
+            # the class of the round-trip theorem: every position up to 3 leaves, filter + lambda beyond (quick tier)
+            out.append((fam, e, allpos if (big or n <= 3) else ['filter', 'lambda']))
+        elif fam == 'isnone' and n <= (3 if big else 2): out.append((fam, e, allpos))
+        elif fam == 'const' and n <= (3 if big else 2): out.append((fam, e, allpos))
+    rng = random.Random(ctx.rng.random())
+    for i in range(ctx.scale(60, 1500)):
+        e, _ = random_bexp(rng, rng.randint(4, 8), rng.randint(2, 5), rich=False)
+        out.append(('random', e, allpos))
+    return out
+
+
+TRUSTED = [
+    'the harness that turns Python `ast` trees and `dis` / Decompiler.instructions streams into Coq literals (tools/c03_lib.py, c03_model.py, c03_struct.py); '
+    'atoms of the boolean fragment are maximal sub-expressions keyed by ast.dump',
+    'value domain of the checker: atoms range over the four Python values False, True, None, \'x\' (two falsy, two truthy, both bools); equality on them is identity; '
+    'evaluation has no side effects and raises nothing. C03Bexp.eval is compared with CPython evaluating the source text under every assignment on every run',
+    'hand-written model coq/Model/C03Decomp.v (CPython 3.12 code generation for and/or/not/if-else/==/is None incl. jump threading and the IS_OP/UNARY_NOT peephole; Pony\'s '
+    'get_instructions merge, analyze_jumps, conditional_jump_new, conditional_jump_none_impl, process_target, JUMP_FORWARD, simplify, RETURN_VALUE, YIELD_VALUE), compared with the real '
+    '`dis` stream, Decompiler.instructions, or_jumps, conditions_end and Decompiler.ast at five positions on every run (Tie B); not modelled: compile-time constants, '
+    'IfExp in a lambda body (exit-block copying), call-argument positions, everything outside the fragment',
+    'non-boolean grammar: tree equality after a normalisation that undoes CPython\'s own constant rewriting (tuple/frozenset constants, -<literal>, in [..] -> in (..), '
+    'one-piece f-strings, x[None:None], `if a if b` = `if a and b`, f(*a, k=v) = f(*a, **{\'k\': v})) - harness code, not verified',
+    'classification of a failing input (shrinking with a Python mirror of eval) only chooses the finding key; the verdict on every input comes from the Coq checker',
+    '/venv/bin/python 3.12.1: the property is about this version\'s bytecode',
+]
+ASSUMPTIONS = [
+    'an exception raised by the decompiler (any type) is a rejection and allowed by the statement',
+    'meaning = value under every assignment of the free names (element, lambda body, call argument) resp. truth value (filter); order of evaluation, exceptions and side effects of operands are outside the model',
+    'sub-expressions outside the boolean/jump fragment are compared as trees (no control flow inside them except comparison chains, which the decompiler rejects or mangles - recorded)',
+    'CPython 3.12.1 only',
+]
+RULE = ('exhaustive: every expression shape over and/or/not/if-else/== (one distinct atom per leaf) up to 3 leaves with a `not` allowed on every node (4 in the thorough tier), up to 5 (6) leaves '
+        'without `not`, and/or/not only up to 4 (5) leaves, leaves decorated with is None / is not None, one leaf replaced by each constant; each at 7 positions (filter of the first / first-of-two / '
+        'second for-clause, element, lambda body, positional call argument, keyword argument); random beyond the bound (5-9 leaves, repeated atoms, constants, != , rich atoms); '
+        'random + fixed queries over the non-boolean grammar. non-trivial = distinct (position, expression) with at least one operator on which the decompiler returned a tree, plus '
+        'distinct model-tie cases where the real decompiler returned a tree; correspondence cases = reference-semantics tables + model ties')
+LEVEL_TEXT = ('Machine-checked proof (Coq 8.16.1) of the ORACLE: a truth-table equivalence checker over a 4-valued Python value domain, sound and complete for any number of atoms '
+              '(C03_checker_sound, C03_checker_truth_sound, ..._complete). Every output of the REAL decompiler is judged by that checker (vm_compute) - exhaustively for all boolean-structure '
+              'expressions up to the size bound at 7 positions and randomly beyond; the non-boolean grammar is checked by tree equality. An executable Coq model of CPython 3.12 code generation '
+              'and of Pony\'s Decompiler for the fragment is compared with the real bytecode, Decompiler.instructions, or_jumps, conditions_end and the final AST on every run (no disagreement on '
+              '>200k cases in the thorough tier). On the model: round-trip theorem C03_andor_partial for an unbounded sub-family only; the full and/or/not round trip is REFUTED '
+              '(C03_refuted_filter_wrong_And_Or: a 6-operand and/or expression), as are the classes with ==, if-else and constants (19 recorded findings with witnesses in Findings/C03.v).')
+LEVEL_NOTE = ('Partial: the proof covers the checker and a sub-family of the round trip; the statement for the whole accepted grammar rests on exhaustive bounded + random validation of the real decompiler '
+              'through the verified checker and on the correspondence of the model. Trusted: Coq kernel + vm_compute; the serialisation harness; the 4-valued domain as an abstraction of Python values; '
+              'CPython 3.12.1 as the only bytecode version.')
+TECHNIQUE = ('verified equivalence checker (truth table lifted by forallb_forall over all assignments, induction on the atom list); executable model of compiler + decompiler with vm_compute correspondence at '
+             'every intermediate tie point; exhaustive small-scope + random differential search of the real decompiler through the checker; failure classification by shrinking')
 DESIGN_REF = 'DESIGN.md section 5, C03; Appendix B'
